@@ -454,3 +454,199 @@ TARGETS = [
     dict(name="parse_intlit", props=["C13", "C01"], func=entry, cfg=PARSE_CFG, make_args=make_args_for(t_intlit), check=check_intlit,
          what="an integer literal token with any u64 payload: the int64 it spells, or a syntax error above the int64 range", bounds={"payload": "all u64"}),
 ]
+
+
+# ----------------------------------------------------------------------------- running emitted code on a reference machine
+class AbsVal:
+    """a run-time value in the reference run of emitted code: identifiers denote arbitrary values
+    with two uninterpreted attributes (fails?, truthy?); operations build terms"""
+    def __init__(self, term, fails=None, truthy=None):
+        self.term, self.fails, self.truthy = term, fails, truthy
+
+    def __repr__(self):
+        return str(self.term)
+
+
+def run_emitted(A, ex, points, env):
+    """execute PreResolved code (labels in place) on the reference machine of t_vm's semantics;
+    -> (result term | ('error', why), [names evaluated in order])"""
+    labels = {p[1]: i for i, p in enumerate(points) if p[0] == "label"}
+    stack, order, pc, steps = [], [], 0, 0
+
+    def value_of_ident(name):
+        if name not in env:
+            env[name] = AbsVal(("var", name), z3.Bool(f"fails@{name}"), z3.Bool(f"truthy@{name}"))
+            ex.assume(z3.Not(z3.And(env[name].fails, env[name].truthy)))
+        order.append(name)
+        return env[name]
+
+    def pop():
+        if not stack:
+            raise Halt("underflow")
+        v = stack.pop()
+        if isinstance(v, tuple) and v[0] == "ident":
+            return value_of_ident(v[1])
+        return v
+
+    class Halt(Exception):
+        pass
+    try:
+        while pc < len(points):
+            steps += 1
+            if steps > 200:
+                raise Halt("step budget")
+            p = points[pc]
+            pc += 1
+            if p[0] == "label":
+                continue
+            if p[0] == "jmp":
+                pc = labels[p[1]]
+                continue
+            if p[0] == "jmpcond":
+                v = pop()
+                when = p[1]
+                if v.term[0] == "bool":
+                    b = A.ask(v.term[1])
+                    if b == when:
+                        pc = labels[p[2]]
+                elif v.fails is not None and A.ask(v.fails):
+                    if not when:
+                        pc = labels[p[2]]
+                elif v.term[0] == "test":
+                    raise Halt("inconsistent test value")
+                else:
+                    # neither a bool nor a failure: the VM ends the run with an error
+                    return ("error", "condition is not a bool"), order
+                continue
+            name, f = p[1], p[2]
+            if name == "Push":
+                v = f[0]
+                if isinstance(v, VAdt) and isinstance(v.discr, int) and variant(ex, v) == "Ident":
+                    stack.append(("ident", getattr(v.fields[v.discr][0], "vid", None)))
+                else:
+                    stack.append(AbsVal(("const", getattr(v, "vid", None)), z3.BoolVal(False), None))
+            elif name == "Pop":
+                pop()
+            elif name == "Dup":
+                v = pop()
+                stack.append(v)
+                stack.append(v)
+            elif name == "Test":
+                v = pop()
+                if v.fails is not None and A.ask(v.fails):
+                    stack.append(v)
+                else:
+                    t = v.truthy if v.truthy is not None else z3.Bool(f"truthy@{v.term}")
+                    stack.append(AbsVal(("bool", t), z3.BoolVal(False), t))
+            elif name == "Not":
+                v = pop()
+                if v.fails is not None and A.ask(v.fails):
+                    stack.append(v)
+                elif v.term[0] == "bool":
+                    stack.append(AbsVal(("bool", z3.Not(v.term[1])), z3.BoolVal(False), z3.Not(v.term[1])))
+                else:
+                    stack.append(AbsVal(("not", v.term), None, None))
+            elif name in ("Or", "And"):
+                b = pop()
+                a = pop()
+                stack.append(AbsVal((name.lower(), a.term, b.term), None, None))
+            else:
+                raise Halt("instruction outside the reference: " + name)
+        v = pop()
+        return v.term, order
+    except Halt as h:
+        return ("error", str(h)), order
+
+
+def t_logic(kind):
+    def build(ex):
+        return [ident(ex, 0, "a"), mk_token(ex, 1, kind), ident(ex, 2, "b")]
+    return build
+
+
+def check_logic(kind):
+    def check(res, V):
+        ex = res.ex
+        sc = scen_tokens(ex)
+        if res.outcome != "return":
+            (V.check(ex, "no panic", False, detail=res.msg, scenario=sc) if res.outcome == "panic" else V.inconclusive.append(f"{res.outcome}: {res.msg}"))
+            return
+        parts = result_parts(ex, res.ret)
+        if parts is None:
+            V.check(ex, "parses", False, detail=repr(res.ret), scenario=sc)
+            return
+        code = code_points(ex, parts[0])
+        toks = ex.notes["toks"]
+        na, nb = (getattr(toks[i].fields[0].fields[toks[i].fields[0].discr][0], "vid", None) for i in (0, 2))
+
+        def ref(A):
+            env = {}
+            out, order = run_emitted(A, ex, code[1], env)
+            a = env.get(na)
+            facts = dict(a_fails=A.ask(a.fails) if a else None, a_truthy=A.ask(a.truthy) if a else None)
+            return out, order, facts
+        for assumed, (out, order, facts) in run_reference(ex, ref):
+            af, at = facts["a_fails"], facts["a_truthy"]
+            V.witness(f"a fails={af} truthy={at}")
+            if kind == "OrOr":
+                skip = at is True
+            else:
+                skip = (at is False) or (af is True)
+            want_order = [na] if skip else [na, nb]
+            V.check(ex, "the right operand is evaluated exactly when the left one does not decide", order == want_order, assumed,
+                    detail=lambda: f"left fails={af} truthy={at}: evaluated {order}, expected {want_order}; code {code[1]}", scenario=sc)
+            if kind == "OrOr" and at is True:
+                V.check(ex, "a || b is true when a is truthy", out[0] == "bool" and z3.is_true(z3.simplify(z3.substitute(out[1], (z3.Bool(f'truthy@{na}'), z3.BoolVal(True))))), assumed, detail=lambda: repr(out), scenario=sc)
+            elif not skip:
+                V.check(ex, "otherwise the operator's absorption rule is applied to (a, b) in that order", out[0] == ("or" if kind == "OrOr" else "and") and out[2] == ("var", nb), assumed, detail=lambda: repr(out), scenario=sc)
+    return check
+
+
+def t_ternary(ex):
+    return [ident(ex, 0, "c"), mk_token(ex, 1, "Question"), ident(ex, 2, "x"), mk_token(ex, 3, "Colon"), ident(ex, 4, "y")]
+
+
+def check_ternary(res, V):
+    ex = res.ex
+    sc = scen_tokens(ex)
+    if res.outcome != "return":
+        (V.check(ex, "no panic", False, detail=res.msg, scenario=sc) if res.outcome == "panic" else V.inconclusive.append(f"{res.outcome}: {res.msg}"))
+        return
+    parts = result_parts(ex, res.ret)
+    if parts is None:
+        V.check(ex, "parses", False, detail=repr(res.ret), scenario=sc)
+        return
+    code = code_points(ex, parts[0])
+    toks = ex.notes["toks"]
+    nc, nx, ny = (getattr(toks[i].fields[0].fields[toks[i].fields[0].discr][0], "vid", None) for i in (0, 2, 4))
+    fault = verify_block(code[1])
+    V.check(ex, "emitted block is well-formed (labels, stack heights, one result)", fault is None, detail=lambda: f"{fault}: {code[1]}", scenario=sc)
+
+    def ref(A):
+        env = {}
+        out, order = run_emitted(A, ex, code[1], env)
+        c = env.get(nc)
+        return out, order, (A.ask(c.fails) if c else None), (A.ask(c.truthy) if c else None)
+    for assumed, (out, order, cf, ct) in run_reference(ex, ref):
+        V.witness(f"c fails={cf} truthy={ct}")
+        if cf:
+            V.check(ex, "c ? x : y fails when c fails (neither branch is evaluated)", order == [nc] and out == ("var", nc), assumed,
+                    detail=lambda: f"condition fails: evaluated {order}, result {out}", scenario=sc)
+        elif ct:
+            V.check(ex, "a truthy condition evaluates exactly x", order == [nc, nx] and out == ("var", nx), assumed, detail=lambda: f"evaluated {order}, result {out}", scenario=sc)
+        else:
+            V.check(ex, "a falsy condition evaluates exactly y", order == [nc, ny] and out == ("var", ny), assumed, detail=lambda: f"evaluated {order}, result {out}", scenario=sc)
+    spans = []
+    got = shape(ex, parts[1], spans)
+    V.check(ex, "the tree is a conditional over (c, x, y)", got[0] == "cond" and [strip_paren(g) for g in got[1:]] == [("leaf", nc), ("leaf", nx), ("leaf", ny)], detail=lambda: repr(got), scenario=sc)
+    V.check(ex, "the parameter set is exactly the identifiers", params_of(parts[0]) == sorted([nc, nx, ny]), detail=lambda: repr(params_of(parts[0])), scenario=sc)
+
+
+TARGETS += [
+    dict(name="parse_or", props=["C05", "C10", "C01"], func=entry, cfg=PARSE_CFG, make_args=make_args_for(t_logic("OrOr")), check=check_logic("OrOr"),
+         what="`a || b`: the emitted block, run on the reference machine for every truthiness/failure of a: b is evaluated only when a is not truthy; true when a is truthy", bounds={"tokens": "3"}),
+    dict(name="parse_and", props=["C05", "C10", "C01"], func=entry, cfg=PARSE_CFG, make_args=make_args_for(t_logic("AndAnd")), check=check_logic("AndAnd"),
+         what="`a && b`: b is evaluated only when a is truthy", bounds={"tokens": "3"}),
+    dict(name="parse_ternary", props=["C05", "C10", "C17", "C01"], func=entry, cfg=PARSE_CFG, make_args=make_args_for(t_ternary), check=check_ternary,
+         what="`c ? x : y`: exactly one branch is evaluated, chosen by the truthiness of c; a failing c fails the expression", bounds={"tokens": "5"}),
+]
